@@ -11,7 +11,7 @@ from common import Check
 from props import ctrace
 from gen import prog as genprog
 
-FEATURES = {'str', 'int', 'hook', 'loop', 'case', 'greedy', 'opt', 'try', 'if', 'wait', 'finish', 'yield', 'regex', 'condact', 'end'}
+FEATURES = {'str', 'int', 'hook', 'loop', 'case', 'greedy', 'opt', 'try', 'if', 'wait', 'finish', 'yield', 'regex', 'condact', 'end', 'idiom', 'appendc'}
 
 
 def classify_mc(rep):
